@@ -768,4 +768,5 @@ static void rbnd_gen(Ctx& ctx) {
     });
 }
 
+VK_FRESH_THREADS;
 VK_MAIN("C19")
